@@ -5,7 +5,7 @@ tokens (real healthCheck, real /health handler); plus a hook-free real-time run 
 import json, os, subprocess, concurrent.futures as cf
 from vlib.common import *
 
-NEG = [("NoExit", None), ("BelowZero", None), ("NoReset", None), ("StaleGE", None), ("IgnoreDisabled", None),
+NEG = [("NoExit", None), ("CloseStopsOnTokenError", None), ("BelowZero", None), ("NoReset", None), ("StaleGE", None), ("IgnoreDisabled", None),
        ("OffByOne", None), ("AnyTokenOk", None)]
 
 
